@@ -23,6 +23,8 @@ pub enum QuantOp {
     Convert(f32),
     ConvertSame,
     ConvertNudge(f32),
+    /// n scale edits in a row without a conversion in between: forbid([note]), allow([note]), forbid, ... (alternating)
+    EditBurst { note: u8, n: u16 },
     /// n conversions start, start+step, ...
     Ramp { start: f32, step: f32, n: u8 },
     /// conversions at boundary k/12 + amp*H*off for every off in offs (off in [-1,1])
@@ -242,6 +244,31 @@ pub fn run_case(case: &QuantCase, mask: u32, stats: &mut Stats) -> Result<CaseIn
                         forbidden_last_class = true;
                     }
                 }
+                edited_since_convert = true;
+                prev_mono = None;
+                mono_armed = false;
+            }
+            QuantOp::EditBurst { note, n } => {
+                let nn = Note::from(*note);
+                let bit = 1u16 << (*note).min(11);
+                for i in 0..*n {
+                    if i % 2 == 0 {
+                        q.forbid(&[nn]);
+                        scale &= !bit;
+                        if scale == 0 {
+                            scale = bit;
+                        }
+                    } else {
+                        q.allow(&[nn]);
+                        scale |= bit;
+                    }
+                }
+                if let Some(n) = last_note {
+                    if scale >> (n % 12) & 1 == 0 {
+                        forbidden_last_class = true;
+                    }
+                }
+                stats.count("label.edit_burst", 1);
                 edited_since_convert = true;
                 prev_mono = None;
                 mono_armed = false;
